@@ -131,7 +131,6 @@ func narrowInts(sp *spec.Spec, t *spec.Type, v any, depth int) any {
 	return v
 }
 
-
 // gFill removes from a drawn value the three input classes that a proto3 wire cannot carry faithfully or that
 // run into triaged goa defects, so that they do not eat the budget of (and mask other findings in) the ordinary
 // cases: an empty collection nested in another collection gets one element, a required collection sent empty
